@@ -115,6 +115,54 @@ Example C14_nonvacuous :
   /\ map (fun b => map (fun e => (fst e, v_state (snd e))) (o_served b)) (firstn 2 (skipn 11 (run run_op (boot (0, 0, 0) boot1) ex_ops)))
      = [[(1, Up); (2, Tombstone)]; [(1, Up); (2, Tombstone)]].
 Proof. vm_compute. split; reflexivity. Qed.
+(* ---------- the guards of PutStore that depend on the replication settings (OSetEnv changes them) ---------- *)
+(* strictly-match-label: a registration or label update whose (merged) labels miss a location label or carry an unknown key is
+   refused and nothing changes; the merged labels are those of merge_labels (UpdateStoreLabels / PutStore without force) *)
+Theorem C14_strict_label_mismatch_refused :
+  forall s p (force : bool) f v,
+    p_id p <> 0 -> p_ver p = Some v -> compatible (cver s) v = true -> dup_addr s (p_id p) (p_addr p) = false ->
+    labels_rejected (cenv s) (match sv s (p_id p) with
+                              | None => p_labels p
+                              | Some old => if force then p_labels p else merge_labels (s_labels old) (p_labels p)
+                              end) = true ->
+    put_impl s p force f = (s, RLabel).
+Proof.
+  intros s p force f v Hid Hv Hc Hd Hl. unfold put_impl.
+  destruct (Z.eqb_spec (p_id p) 0); [contradiction|]. rewrite Hv, Hc, Hd. cbn [negb].
+  destruct (sv s (p_id p)) as [old|]; rewrite Hl; reflexivity.
+Qed.
+(* the gRPC registration of a TiFlash store while placement rules are disabled is refused (after the tombstone guard) and nothing changes *)
+Theorem C14_tiflash_refused_without_placement_rules :
+  forall s p f, e_pr (cenv s) = false -> is_tiflash (p_labels p) = true ->
+    (forall x, sv s (p_id p) = Some x -> s_state x <> Tombstone) ->
+    run_cmd s (OPut true p f) = (s, RTiFlash).
+Proof.
+  intros s p f Hp Ht Hx. cbn [run_cmd]. cbv zeta. rewrite Hp, Ht. cbn [negb andb].
+  destruct (sv s (p_id p)) as [x|] eqn:E; [|reflexivity].
+  assert (T : is_tomb x = false) by (apply is_tomb_false, Hx; reflexivity). rewrite T. reflexivity.
+Qed.
+
+(* ---------- several failing writes in one operation (the restoring writes can fail too) ----------
+   C14_success_implies_stored_eq_served and C14_failed_write_keeps_served above are stated for at most one failing write per
+   operation (type `fault`): the best-effort writes that put the weight keys back succeed.  The layer do_weight_m /
+   delete_store_m follows SetStoreWeight / SaveStoreWeight / DeleteStore write by write with ANY set of failing writes. *)
+(* what holds for any set of failing writes: an operation that reports an error leaves what is served exactly as it was *)
+Theorem C14_failed_write_keeps_served_any_faults :
+  forall s o mf s' r, run_mop s o mf = (s', r) -> r <> ROk -> served s' = served s.
+Proof. exact multi_failed_keeps_served_pf. Qed.
+(* with at most one failing write the layer IS the single-fault model, so the theorems above carry over to it *)
+Theorem C14_multi_fault_layer_refines_single_fault_model :
+  (forall s id lw rw, do_weight_m s id lw rw [] = do_weight s id lw rw NoFault) /\
+  (forall s id lw rw i k, do_weight_m s id lw rw [(i, k)] = do_weight s id lw rw (Fault id i k)) /\
+  (forall s id i k, delete_store_m s id [(i, k)] = delete_store s id (Fault id i k)).
+Proof. split; [exact weight_no_fault_pf|split; [exact weight_single_fault_pf|exact delete_single_fault_pf]]. Qed.
+(* "stored = served after a failed operation" NEEDS the hypothesis that the restoring writes succeed: second failing write = the one
+   that puts the leader weight back; error reported, served weight 1, stored leader weight 5 (nothing more can be done without storage) *)
+Theorem C14_failed_op_stored_eq_served_needs_restoring_writes :
+  exists s', do_weight_m multi_base 2 5 7 [(1%nat, FBefore); (2%nat, FBefore)] = (s', RStorage) /\
+    served s' = served multi_base /\ aget (st_lw s') 2 = Some 5 /\ sv s' 2 = Some (SStore "a2" Up false [] (4, 0, 0) 1 1 0 false).
+Proof. exact multi_fault_witness. Qed.
+
 Print Assumptions C14_state_one_way.
 Print Assumptions C14_tombstone_absorbing.
 Print Assumptions C14_tombstone_refused.
@@ -128,3 +176,8 @@ Print Assumptions C14_partial_cleanup_consistent.
 Print Assumptions C14_regression_weight_rollback.
 Print Assumptions C14_regression_cleanup_removes_weight_keys.
 Print Assumptions C14_regression_failed_put_keeps_labels.
+Print Assumptions C14_failed_write_keeps_served_any_faults.
+Print Assumptions C14_multi_fault_layer_refines_single_fault_model.
+Print Assumptions C14_failed_op_stored_eq_served_needs_restoring_writes.
+Print Assumptions C14_strict_label_mismatch_refused.
+Print Assumptions C14_tiflash_refused_without_placement_rules.
